@@ -571,6 +571,9 @@ pub struct DriveOpts {
     /// how much to feed / free per round of the drain phase (at least 1 unit each)
     pub drain_feed: Sz,
     pub drain_free: Sz,
+    /// drain phase: only one output port is drained per round, in rotation (blocks with
+    /// several outputs see one output full while another has room)
+    pub lopsided: bool,
     /// keep every CallObs in the log (C09); otherwise only the last few
     pub keep_calls: bool,
     /// evaluate the per-call verdict oracles of C09 (handles, misdirected wait, spin)
@@ -589,6 +592,7 @@ impl Default for DriveOpts {
             probe: false,
             drain_feed: Sz::All,
             drain_free: Sz::All,
+            lopsided: false,
             keep_calls: false,
             verdict_checks: false,
             close_outputs_at: None,
@@ -1010,6 +1014,7 @@ pub fn drive(built: &mut Built, schedule: &[Step], opts: &DriveOpts) -> RunLog {
     // Drain phase: feed as much as fits, free everything, call, until nothing moves.
     let mut quiet = 0;
     let mut closed = false;
+    let mut drain_round = 0usize;
     while !done {
         let mut moved = false;
         for p in built.ins.iter_mut() {
@@ -1023,7 +1028,12 @@ pub fn drive(built: &mut Built, schedule: &[Step], opts: &DriveOpts) -> RunLog {
                 }
             }
         }
-        for p in built.outs.iter_mut() {
+        drain_round += 1;
+        let nouts = built.outs.len();
+        for (pi, p) in built.outs.iter_mut().enumerate() {
+            if opts.lopsided && nouts >= 2 && drain_round % nouts != pi {
+                continue;
+            }
             let before = p.taken();
             let avail = p.available();
             let j = opts.drain_free.resolve(avail, avail).max(1);
